@@ -247,7 +247,7 @@ func (e *Engine) modelEffect(fn *ssa.Function) ([]Sort, bool) {
 var pureModels = map[string]bool{
 	"errors.New": true, "fmt.Errorf": true, "fmt.Sprintf": true, "fmt.Sprint": true, "errors.Is": true,
 	"strings.EqualFold": true, "strings.ToLower": true, "strings.ToUpper": true, "strings.HasPrefix": true, "strings.HasSuffix": true,
-	"strings.TrimPrefix": true, "strings.TrimSpace": true, "strings.Contains": true, "strings.Index": true,
+	"strings.TrimPrefix": true, "strings.TrimSpace": true, "strings.Contains": true, "strings.Index": true, "strings.Split": true,
 	"bytes.Equal": true, "strconv.Itoa": true, "strconv.Atoi": true, "strconv.Quote": true,
 	"(*strings.Builder).String": true, "bytes.NewReader": true,
 }
@@ -438,6 +438,38 @@ func (x *Exec) stdlibModel(fr *frame, s *State, callee *ssa.Function, args []Val
 		errV := Value{T: res(1), L: []Term{Ite(ok, IntLit(0), tag), Ite(ok, IntLit(0), r), BVLitI(64, 0)}}
 		x.C.Trusted["strconv.Atoi is a function of its argument (value and success)"] = true
 		return []Value{{T: res(0), L: []Term{Ite(ok, app(SBV64, "sx.atoi", a), BVLitI(64, 0))}}, errV}, true
+	case k == "strings.Split":
+		// the pieces are uninterpreted; with a non-empty separator there is at least one piece
+		str, sep := args[0].L[0], args[1].L[0]
+		ref := x.alloc(s, "split")
+		n := x.C.Fresh("splitlen", SBV64)
+		v := Value{T: res(0), L: []Term{ref, BVLitI(64, 0), n, n}}
+		x.C.Assume(Implies(s.Reach, And(
+			Implies(Not(Eq(app(SBV64, "sx.len", sep), BVLitI(64, 0))), BVCmp("bvsge", n, BVLitI(64, 1))),
+			BVCmp("bvsge", n, BVLitI(64, 0)),
+			BVCmp("bvsle", n, BVOp("bvadd", app(SBV64, "sx.len", str), BVLitI(64, 1))))))
+		x.C.Trusted["strings.Split(s, sep) with a non-empty separator returns between 1 and len(s)+1 pieces in a new slice"] = true
+		return []Value{v}, true
+	case k == "strings.Index":
+		str, sub := args[0].L[0], args[1].L[0]
+		x.C.DeclareFun("sx.index", []Sort{SStr, SStr}, SBV64)
+		r := app(SBV64, "sx.index", str, sub)
+		x.C.Assume(Or(Eq(r, BVLitI(64, -1)), And(BVCmp("bvsge", r, BVLitI(64, 0)),
+			BVCmp("bvsle", r, BVOp("bvsub", app(SBV64, "sx.len", str), app(SBV64, "sx.len", sub))),
+			BVCmp("bvsle", app(SBV64, "sx.len", sub), app(SBV64, "sx.len", str)))))
+		x.C.Trusted["strings.Index(s, sub) is -1 or a position where sub fits into s"] = true
+		return []Value{{T: res(0), L: []Term{r}}}, true
+	case k == "strings.HasPrefix", k == "strings.HasSuffix":
+		str, pre := args[0].L[0], args[1].L[0]
+		fn := "sx.hasprefix"
+		if k == "strings.HasSuffix" {
+			fn = "sx.hassuffix"
+		}
+		x.C.DeclareFun(fn, []Sort{SStr, SStr}, SBool)
+		r := app(SBool, fn, str, pre)
+		x.C.Assume(Implies(r, BVCmp("bvule", app(SBV64, "sx.len", pre), app(SBV64, "sx.len", str))))
+		x.C.Trusted["strings.HasPrefix/HasSuffix(s, p) implies len(p) <= len(s)"] = true
+		return []Value{boolVal(r)}, true
 	case k == "strings.EqualFold":
 		a, b := args[0].L[0], args[1].L[0]
 		// reflexive, symmetric (by ordering the arguments is not possible syntactically: axioms instead)
